@@ -3,7 +3,8 @@
         fault theorems over Conn_Model;
  correspondence: (1) real Acceptor on a loopback listener with scripted accept4 answers vs C11_Model,
         (2) real TcpConnection with fault-heavy kernel scripts vs Conn_Model,
-        (3) the loop with interrupted polls under both back-ends;
+        (3) the real EventLoop::loop() with every pass scripted (bursts of interrupted polls at every position of a
+            scenario, both back-ends) vs C11_Model.loop_run;
  oracle: the property text - a faulted run and its fault-free twin must agree on everything visible."""
 import os, re, itertools
 import vlib, connlib
@@ -55,6 +56,123 @@ def acc_oracle(case, lines):
     return res
 
 
+LOOP_LINE = re.compile(r"^ok disp=(\S+) ran=(\S+) pend=(\d+) quit=(\d) it=(\d+) log=(\d+)$")
+
+
+def loop_oracle(case, lines):
+    """property text on the loop's implementation trace: under interrupted polls the loop neither exits,
+    aborts nor spins; no task / event is lost or duplicated; an interrupted poll costs exactly one empty pass.
+    Independent bookkeeping (not the model): unread pipes, the task queue in FIFO order, who asked to quit."""
+    res = []
+    unread = [0, 0, 0]
+    queue = []          # functors queued and not yet run, in queueing order
+    asked_quit = False
+    passes = 0
+    for i, op in enumerate(case.ops):
+        if i + 2 >= len(lines):
+            return res + [(i, "missing output")]
+        ln = lines[i + 1]
+        t = op.split()
+        exts = t[2:] if t[0] == "E" else t[1:]
+        if ln == "ok unused":
+            if not asked_quit:
+                res.append((i, "the loop left its while loop although nobody asked it to quit (after %d passes)" % passes))
+                return res
+            continue
+        if asked_quit:
+            res.append((i, "the loop made another pass after quit was requested and the pass that saw it had ended"))
+            return res
+        m = LOOP_LINE.match(ln)
+        if not m:
+            return res + [(i, "unparsable %r" % ln)]
+        disp = [] if m.group(1) == "-" else [int(x[1:]) for x in m.group(1).split(",")]
+        ran = [] if m.group(2) == "-" else [int(x[1:]) for x in m.group(2).split(",")]
+        pend, quit, it, log = int(m.group(3)), int(m.group(4)), int(m.group(5)), int(m.group(6))
+        passes += 1
+        for e in exts:
+            if e == "quit":
+                asked_quit = True
+            elif e[0] == "q":
+                queue.append(int(e[1:]))
+            elif e[0] == "p":
+                unread[int(e[1:])] += 1
+        if it != passes:
+            res.append((i, "iteration count %d after %d returns of the poll call (one pass per return: no spinning, none skipped)" % (it, passes)))
+        if t[0] in ("I", "E"):
+            if disp:
+                res.append((i, "a failed poll call dispatched channels %s" % disp))
+            if t[0] == "I" and log:
+                res.append((i, "an interrupted poll call (EINTR) was logged as an error"))
+        else:
+            want = [c for c in range(3) if unread[c] > 0]
+            if disp != want:
+                res.append((i, "channels dispatched %s, readable %s: an event was lost or duplicated" % (disp, want)))
+        for c in disp:
+            unread[c] = 0
+            if c == 1:
+                queue.append(5)
+        # doPendingFunctors: everything queued up to here runs now, once, in order (also in an interrupted pass)
+        if ran != queue:
+            res.append((i, "functors run %s, queued and due %s: a task was lost, duplicated, reordered or skipped by the pass" % (ran, queue)))
+        queue = [f - 10 for f in ran if 10 <= f < 20]
+        if 99 in ran:
+            asked_quit = True
+        if pend != len(queue):
+            res.append((i, "%d functors left pending, %d expected" % (pend, len(queue))))
+        if quit != (1 if asked_quit else 0):
+            res.append((i, "quit_ = %d although quit was%s requested: a failed poll must not end the loop" % (quit, "" if asked_quit else " not")))
+    return res
+
+
+LOOP_SCENARIOS = [
+    ["N q1", "N p0", "N q2 p1", "N", "N q10", "N", "N quit"],
+    ["N p0 p1 p2", "N q11 q3", "N", "N p1", "N q99", "N q4"],
+    ["N q1 q2 q3", "N p2", "N p2 q12", "N", "N quit"],
+    ["N", "N p1", "N", "N q10 q11", "N p0 quit", "N q1"],
+]
+
+
+def loop_cases(rng, tier):
+    """bursts of k interrupted polls at EVERY position of each scenario (the burst either on its own, or with
+    the other thread's activity of that position happening during the burst's first / last pass), plus
+    random scripts; a few failed polls with another errno"""
+    cases = []
+    n = 0
+    ks = (1, 2, 3, 7) if tier == "quick" else (1, 2, 3, 5, 7, 12, 25)
+    for si, sc in enumerate(LOOP_SCENARIOS):
+        cases.append(vlib.Case("lb%d" % si, "loop", sc, "loop-base"))
+        for pos in range(len(sc) + 1):
+            for k in ks:
+                for how in ("alone", "first", "last"):
+                    if how != "alone" and (pos >= len(sc) or len(sc[pos].split()) == 1):
+                        continue
+                    burst = ["I"] * k
+                    ops = list(sc)
+                    if how != "alone":
+                        exts = sc[pos].split()[1:]
+                        j = 0 if how == "first" else k - 1
+                        burst[j] = "I " + " ".join(exts)
+                        ops[pos] = "N"
+                    n += 1
+                    cases.append(vlib.Case("lp%d" % n, "loop", ops[:pos] + burst + ops[pos:], "loop-burst"))
+    # the plain statement of the property: k interrupted polls, then one normal pass that delivers everything: k + 1 passes
+    for k in (0, 1, 2, 5, 25):
+        cases.append(vlib.Case("lk%d" % k, "loop", ["I"] * k + ["N q1 q2 p0 p2 quit"], "loop-k"))
+    exts_pool = ["q1", "q2", "q3", "q10", "q11", "q15", "p0", "p1", "p2"]
+    for i in range(120 if tier == "quick" else 1500):
+        ops = []
+        for _ in range(rng.randint(3, 14)):
+            r = rng.random()
+            kind = "I" if r < 0.4 else ("E %s" % rng.choice(["enomem", "einval", "ebadf"]) if r < 0.47 else "N")
+            ex = [rng.choice(exts_pool) for _ in range(rng.choice([0, 0, 1, 1, 2, 3]))]
+            if rng.random() < 0.04:
+                ex.append(rng.choice(["quit", "q99"]))
+            ops.append(" ".join([kind] + ex))
+        ops.append("N quit")
+        cases.append(vlib.Case("lr%d" % i, "loop", ops, "loop-random"))
+    return cases
+
+
 def acc_cases(rng, tier):
     cases = []
     alpha = ["CONN", "ACC ok", "ACC emfile"] + ["ACC " + e for e in TRANSIENT_ACC]
@@ -74,9 +192,15 @@ def acc_cases(rng, tier):
     # the persisting-shortage scenario of the no-spin theorem: n pending, n+1 dispatches with EMFILE
     for n in (1, 2, 5):
         cases.append(vlib.Case("starve%d" % n, "acc", ["CONN"] * n + ["ACC emfile"] * (n + 1) + ["CONN", "ACC ok"], "acc-starve"))
-    for i, (k, n) in enumerate([(0, 0), (1, 0), (3, 2), (7, 5), (25, 1)]):
-        cases.append(vlib.Case("loop%d" % i, "loop %d %d" % (k, n), ["GO"], "loop"))
-    return cases
+    # REVIEW_C item 6: the same histories with a logger sink that changes errno on every line it is given (a
+    # failing system call): a test of errno placed AFTER a log statement would then go wrong.  Each is compared
+    # with the run under an errno-preserving sink (its twin above / below).
+    clob = []
+    base = [c for c in cases if any(o.startswith("ACC") and not o.endswith("fatal") for o in c.ops) and not any(o.endswith("fatal") for o in c.ops)]
+    pick = [c for c in base if c.tag == "acc-starve"] + [c for c in base if c.tag != "acc-starve" and "ACC emfile" in c.ops[:-2]][:40 if tier == "quick" else 400]
+    for c in pick:
+        clob.append(vlib.Case(c.cid + "_clob", "acc clobber", c.ops, "acc-clobber"))
+    return cases + clob + loop_cases(rng, tier)
 
 
 def run(chk, replay=None):
@@ -87,7 +211,9 @@ def run(chk, replay=None):
     cmodel, cimpl = connlib.build()
     corr_bad, orc_bad = [], []
     sigs = set()
-    if replay and not open(replay).read().count(" acc") and not open(replay).read().count(" loop "):
+    nloop_intr = 0
+    clob_bad = []     # fails only when the logger's sink changes errno
+    if replay and not re.search(r"^case \S+ (acc|loop)\b", open(replay).read(), re.M):
         acases = []
         ccases = connlib.load_cases(replay)
     elif replay:
@@ -100,30 +226,36 @@ def run(chk, replay=None):
         for i in range(n):
             ccases.append(connlib.gen_case(chk.rng, "f%d" % i, "faults", maxops=22 if chk.tier == "quick" else 40))
     for env, tag in (({}, "epoll"), ({"MUDUO_USE_POLL": "1"}, "poll")):
-        cs = acases if tag == "epoll" else [c for c in acases if c.tag == "loop"]
+        cs = acases if tag == "epoll" else [c for c in acases if c.header == "loop"]
         if not cs:
             continue
         io, icr = vlib.run_batch_parallel(aimpl, cs, timeout=1200, env=env, jobs=8)
-        mo, _ = vlib.run_batch_parallel(amodel, cs, timeout=600)
+        mo, _ = vlib.run_batch_parallel(amodel, cs, timeout=600, env=env)
         for c in cs:
             chk.cov["evaluations"] += 1
             if c.cid in icr:
-                orc_bad.append((c, 0, "listener driver crashed (%s): %s" % (tag, icr[c.cid][1][-400:])))
+                what = "the process aborted / crashed in the loop under a failed poll call" if c.header == "loop" else "listener driver crashed"
+                orc_bad.append((c, 0, "%s (%s, exit status %s): %s" % (what, tag, icr[c.cid][0], icr[c.cid][1][-400:].strip())))
                 continue
             li, lm = io.get(c.cid), mo.get(c.cid)
             if li is None:
                 orc_bad.append((c, 0, "no output"))
                 continue
-            if c.tag == "loop":
-                k, n = c.header.split()[1:3]
-                want = "ok ev=- ran=%s exited=1 interrupted_left=0 bounded=1" % n
-                if li[1] != want:
-                    orc_bad.append((c, 0, "loop with %s interrupted poll calls under %s: %r (expected %r): tasks lost, loop exited or spinning" % (k, tag, li[1], want)))
+            if c.header == "loop":
+                for (i, msg) in loop_oracle(c, li):
+                    orc_bad.append((c, i, "loop under interrupted polls (%s): %s" % (tag, msg)))
+                nloop_intr += sum(1 for op in c.ops if op[0] in "IE")
+                sigs.add(("loop", tag, tuple(c.ops)))
+            elif c.tag == "acc-clobber":
+                twin_ok = not acc_oracle(c, io.get(c.cid[:-5]) or [])
+                for (i, msg) in acc_oracle(c, li):
+                    (clob_bad if twin_ok else orc_bad).append((c, i, msg))
+                sigs.add(("acc-clobber", tuple(c.ops)))
             else:
                 for (i, msg) in acc_oracle(c, li):
                     orc_bad.append((c, i, msg))
                 sigs.add(("acc", tuple(c.ops)))
-            if li != lm:
+            if li != lm and c.tag != "acc-clobber":     # (the model is of the code under an errno-preserving sink)
                 idx = next((i for i in range(min(len(li), len(lm or []))) if li[i] != lm[i]), 0)
                 corr_bad.append((c, idx, "listener impl %r vs model %r" % (li[idx], (lm or [None] * (idx + 1))[idx])))
     # ---- (2) connection under faults: differential + metamorphic transparency
@@ -159,13 +291,48 @@ def run(chk, replay=None):
             sigs.add(("conn", tuple(op.split()[0] + ":" + ",".join(x for x in op.split()[1:] if x in connlib.TRANSIENT) for op in c.ops)))
         if len(chk.cov["samples"]) < 3 and nf >= 2 and len(c.ops) <= 14:
             chk.sample({"case": c.text().split("\n")[:-1], "calmed_twin": t.ops, "final": li[len(c.ops)] if len(li) > len(c.ops) else ""})
+    # REVIEW_C item 6, connection side: scenarios with a failed direct write that is logged (EINTR / another errno),
+    # run again with a logger sink that leaves EPIPE in errno: the implementation's lines must not change
+    clob_replay = bool(replay) and "# sink=clobber" in open(replay).read()
+    loud = [c for c in ccases if any(x in ("eintr", "eother") for op in c.ops for x in op.split()[1:])]
+    loud = loud if clob_replay else ([] if replay else loud[:150 if chk.tier == "quick" else 1500])
+    if loud:
+        io3, icr3 = vlib.run_batch_parallel(cimpl, loud, timeout=1800, env={"VERIF_LOG_CLOBBER": "1"})
+        for c in loud:
+            chk.cov["evaluations"] += 1
+            a, b = io.get(c.cid), io3.get(c.cid)
+            if a is None or c.cid in icr:
+                continue
+            if b is None or c.cid in icr3:
+                clob_bad.append((c, 0, "implementation crashed when the logger's sink changes errno"))
+            elif a != b:
+                idx = next((i for i in range(min(len(a), len(b))) if a[i] != b[i]), 0)
+                clob_bad.append((c, idx, "connection behaves differently when the logger's sink leaves EPIPE in errno: %r vs %r (a write error is classified by an errno read after LOG_SYSERR)" % (b[idx], a[idx])))
+            sigs.add(("conn-clobber", tuple(c.ops)))
     chk.cov["distinct_nontrivial"] = len(sigs)
     chk.cov["rule"] = ("listener: enumerated + random histories over {client connects, accept ok, EMFILE, 5 transient errno classes, fatal classes in a forked child}, persisting-shortage "
-                       "scenarios, interrupted poll calls under epoll and poll; connection: random scenarios with a fault-heavy scripted kernel (EAGAIN/EINTR/short writes at every write "
+                       "scenarios, the same EMFILE histories under a logger sink that changes errno; loop: the real EventLoop::loop() with every pass scripted (what another thread "
+                       "does meanwhile: queueInLoop / pipe readable / quit; how epoll_wait / poll returns: EINTR, another errno, the real call) - bursts of 1,2,3,7 interrupted "
+                       "polls at EVERY position of 4 scenarios (alone / with the position's foreign activity during the first / last pass of the burst), k interrupted polls then one "
+                       "normal pass, random scripts, under BOTH back-ends; connection: corpus (empty sends under faults) + random scenarios with a fault-heavy scripted kernel (EAGAIN/EINTR/short writes at every write "
                        "site, read errors, error events), each also run as its fault-free twin; non-trivial = contains at least one injected fault; distinct by op/fault pattern")
     chk.cov["cases_with_faults"] = nfault
     chk.add_obligation("correspondence: C11_Model (listener) and Conn_Model (connection) == real Acceptor / TcpConnection under scripted faults", not corr_bad)
-    chk.add_obligation("oracle: faulted run == fault-free twin on streams, callbacks, state; listener conservation; no abort/spin", not orc_bad)
+    chk.add_obligation("oracle: faulted run == fault-free twin on streams, callbacks, state; listener conservation; loop under interrupted polls: no exit/abort/spin, no task or event lost or duplicated, one pass per poll return", not orc_bad)
+    chk.cov["interrupted_polls_executed"] = nloop_intr
+    key = "errno-after-log"
+    clob_known = any(k["property"] == "C11" and k["key"] == key for k in vlib.known_findings())
+    chk.add_obligation("errno is not read after a log statement: a logger sink that changes errno == a sink that preserves it (listener under EMFILE, connection under logged write errors)"
+                       + (" [recorded finding %s]" % key if clob_bad and clob_known else ""), (not clob_bad) or clob_known)
+    if clob_bad:
+        c, i, msg = clob_bad[0]
+        txt = ("errno is tested after a log statement (Acceptor::handleRead `errno == EMFILE`, TcpConnection::sendInLoop `errno == EPIPE || ..`, both after LOG_SYSERR): "
+               "with a logger output function that changes errno: %s (%d case(s); the same cases pass with a sink that preserves errno)" % (msg, len(set(x[0].cid for x in clob_bad))))
+        if clob_known:
+            chk.known(key, txt)
+        else:
+            p = chk.write_replay("oracle_%s.case" % c.cid, "# %s\n%s%s" % (msg.replace("\n", " "), "# sink=clobber\n" if c.header != "acc clobber" else "", c.text()))
+            chk.violation(p, "C11 fails on the implementation: " + txt)
     if chk.tier == "thorough" and not replay:
         ok_soak, soak_bad, summ = connlib.soak(chk, "C11")
         chk.cov["soak"] = summ
@@ -173,8 +340,12 @@ def run(chk, replay=None):
                            "no wedge, no descriptor left open, streams intact", ok_soak)
         for m in soak_bad:
             orc_bad.append((vlib.Case("soak", "soak", [m], "soak"), 0, "free-running soak: " + m))
-    chk.trusted("translator lib/gen_C11.py: switch tables of sockets::accept and Connector::connect from the clang AST, errno values from Python's errno module",
-                "harness/C11_driver.cc (loopback listener, --wrap=accept4/epoll_wait/poll, fatal classes in a forked child), harness/Conn_driver.cc",
+    chk.trusted("translator lib/gen_C11.py: switch tables of sockets::accept and Connector::connect, the whole of EPollPoller::poll / PollPoller::poll (guards + statement codes per branch, "
+                "fail closed: whatever is not positively recognised - Logger(.., true) / Logger::FATAL, abort, assert, return, unknown calls or node kinds - is code 9 = aborts), the bodies of "
+                "EventLoop::loop's while loop and of doPendingFunctors, the EMFILE branch of Acceptor::handleRead, all from the clang AST; errno values from Python's errno module",
+                "harness/C11_driver.cc (loopback listener, --wrap=accept4/epoll_wait/poll, fatal classes in a forked child; loop mode: every epoll_wait / poll of the loop thread follows the script, "
+                "real calls with timeout 0, foreign activity on a joined helper thread), harness/Conn_driver.cc",
+                "kernel: a failed epoll_wait / poll reports nothing and consumes nothing (level-triggered readiness is reported again by the next successful call) - exercised, not proved",
                 "extraction: ExtrOcamlBasic only")
     if orc_bad:
         c, i, msg = orc_bad[0]
@@ -193,5 +364,6 @@ def run(chk, replay=None):
                              ("\n--- coq log tail ---\n" + pr["log"][-3000:] if not pr["ok"] else ""))
         chk.violation(p, "; ".join(what), no_input=True)
     return chk.finish(level="proof", assumptions=[
-        "kernel contract (DESIGN 3.4): accept succeeds only when a connection is pending; a zero-length write never fails transiently; after SHUT_WR writes fail with EPIPE",
+        "kernel contract (DESIGN 3.4): accept succeeds only when a connection is pending; a zero-length write never fails transiently (queued empty block AND the direct write of a loop-thread send of an empty block: env_ok); after SHUT_WR writes fail with EPIPE",
+        "loop model: what other threads do (queueInLoop, quit) is taken to happen while the loop thread is in the poll call - the swap in doPendingFunctors is under the mutex, so a foreign queueInLoop during the dispatch / functor phase is equivalent to one before / after it",
         "fatal accept classes abort the process by design (LOG_FATAL); they are exercised in a forked child"])
